@@ -9,6 +9,7 @@
 
 use akd_core::configuration::Configuration;
 use akd_core::AzksElement;
+use akd_core::NodeLabel;
 
 use crate::append_only_zks::AzksParallelismConfig;
 use crate::AzksValue;
@@ -125,22 +126,26 @@ async fn verify_append_only_hash<TC: Configuration>(
 fn ensure_prefix_free(nodes: &[AzksElement]) -> Result<(), AkdError> {
     // order by the label bits (zero padded), shorter labels first among equal paddings: if
     // some label is a prefix of another, then it is also a prefix of its successor
-    let mut labels = nodes
-        .iter()
-        .map(|node| node.label.get_prefix(node.label.label_len))
-        .collect::<Vec<_>>();
-    labels.sort_unstable_by(|a, b| {
-        a.label_val
-            .cmp(&b.label_val)
-            .then(a.label_len.cmp(&b.label_len))
-    });
-    for pair in labels.windows(2) {
-        if pair[0].is_prefix_of(&pair[1]) {
+    let mut labels: Vec<NodeLabel> = Vec::with_capacity(nodes.len());
+    for node in nodes.iter() {
+        labels.push(node.label.get_prefix(node.label.label_len));
+    }
+    labels.sort_unstable_by(cmp_padded_value_then_len);
+    for i in 1..labels.len() {
+        if labels[i - 1].is_prefix_of(&labels[i]) {
             return Err(AkdError::AuditErr(AuditorError::VerifyAuditProof(format!(
                 "The proof contains overlapping nodes: {} is a prefix of {}",
-                pair[0], pair[1]
+                labels[i - 1],
+                labels[i]
             ))));
         }
     }
     Ok(())
+}
+
+/// Orders labels by their (zero padded) value and, among equal values, by their length
+fn cmp_padded_value_then_len(a: &NodeLabel, b: &NodeLabel) -> core::cmp::Ordering {
+    a.label_val
+        .cmp(&b.label_val)
+        .then(a.label_len.cmp(&b.label_len))
 }
